@@ -268,3 +268,33 @@ Definition anchors : list (string * string * nat) := %s.
 Definition translation_failed := false.
 """ % (SRC, cq_bool(a["atomic_create"]), cq_bool(a["locked_ops"]), cq_list(rows))
     return text, [a["path"]]
+
+
+
+def analyse_generic(repo=None):
+    """Fallback when the anchored analysis fails (the transport was reshaped): every function and
+    lambda of in_memory.py becomes schedulable at statement granularity, every `with` body is
+    treated as a critical section (never a switch point).  No model events: only the direct
+    oracle can be applied to schedules explored with these points."""
+    import ast as _ast
+    import os as _os
+    from harness import core as _core
+    path = _os.path.join(repo or _core.REPO, "semantiva/execution/transport/in_memory.py")
+    tree = _ast.parse(open(path).read())
+    funcs, lam = {}, None
+    for node in _ast.walk(tree):
+        if isinstance(node, (_ast.FunctionDef, _ast.AsyncFunctionDef)) and node.name not in ("__init__", "connect", "close"):
+            info = {"first": node.lineno, "last": node.end_lineno, "events": {}, "headers": [], "lock_bodies": []}
+            body = node.body[1:] if (node.body and isinstance(node.body[0], _ast.Expr) and isinstance(getattr(node.body[0], "value", None), _ast.Constant)) else node.body
+            for st in _walk_stmts(body):
+                info["headers"].append(list(_header_span(st)))
+                info["events"][st.lineno] = "Tau"
+                if isinstance(st, _ast.With):
+                    info["lock_bodies"].append([st.lineno, st.body[0].lineno, st.body[-1].end_lineno])
+            # several classes may define the same method name: keep them apart by first line
+            funcs.setdefault(node.name, info)
+            if funcs[node.name] is not info:
+                funcs[node.name + "@%d" % node.lineno] = info
+        if isinstance(node, _ast.Lambda) and lam is None:
+            lam = {"line": node.lineno, "body_line": node.body.lineno}
+    return {"path": path, "funcs": funcs, "lambda": lam, "atomic_create": None, "locked_ops": None, "table": "unknown", "generic": True}
